@@ -1,4 +1,5 @@
 import BobModel.Proofs.C15Gc
+import BobModel.Proofs.C15FF
 /-
 C15 — Shared package store is safe under concurrent projects.
 
@@ -254,6 +255,130 @@ theorem no_spurious_failure_refuted : ¬ no_spurious_failure_goal id false := by
     simp only [Option.map_some, Option.some.injEq] at hw
     have := this pi .fileNotFound hp hw
     cases this
+
+
+/-! ### 3. accounting, and 5. no spurious failure for the patched code -/
+
+/-- a consistent store in which repo.json exists and records exactly the installed packages -/
+structure GoodStoreFF (g : Store) (L : List (Bid × Nat)) : Prop where
+  repo : g.repo = .valid L
+  nodup : (keys L).Nodup
+  recorded : ∀ b sz, (b, sz) ∈ L → ∃ d m, g.final b = some d ∧ d.info = some (.valid m) ∧ m.size = sz
+  pkgs : ∀ b d, g.final b = some d → ∃ m, d.info = some (.valid m) ∧ (b, m.size) ∈ L
+
+theorem init_invFF (g : Store) (L : List (Bid × Nat)) (progs : List Prog) (hg : GoodStoreFF g L) :
+    InvFF (initSt g progs) L := by
+  refine ⟨init_mutex g progs, ?_, ?_, hg.nodup, hg.recorded, ?_, ?_, ?_⟩
+  · intro i pi hi; rw [(getElem?_mkProcs hi).1]; exact ⟨trivial, trivial, trivial⟩
+  · left
+    refine ⟨hg.repo, ?_⟩
+    intro i pi rm hi hr
+    rw [(getElem?_mkProcs hi).1] at hr; cases hr
+  · intro b d hd
+    obtain ⟨m, hm, h⟩ := hg.pkgs b d hd
+    exact ⟨m, hm, Or.inl h⟩
+  · intro i pi hi hw
+    rw [(getElem?_mkProcs hi).1] at hw; cases hw
+  · intro i j pi pj hi _ hw
+    rw [(getElem?_mkProcs hi).1] at hw; cases hw
+
+theorem reach_invFF (H : Nat → Nat) (g : Store) (L : List (Bid × Nat)) (progs : List Prog) (hg : GoodStoreFF g L)
+    (sched : List Pid) : ∃ L', InvFF (run H true (initSt g progs) sched) L' :=
+  run_inv (P := fun s => ∃ L', InvFF s L') H true (fun s p ⟨L', h⟩ => invFF_step H s L' p h) _
+    ⟨L, init_invFF g L progs hg⟩ sched
+
+/-- **no_spurious_failure_partial** (hypotheses added: `OpenLocked.__exit__` flushes before it unlocks — the
+proposed patch, `ff = true` — and repo.json exists at the start): in every interleaving of any number of install /
+use / gc / builder processes no operation ends with FileNotFoundError(repo.json), JSONDecodeError or
+"Corrupt meta info". -/
+theorem no_spurious_failure_partial (H : Nat → Nat) (g : Store) (L : List (Bid × Nat)) (progs : List Prog)
+    (hg : GoodStoreFF g L) (sched : List Pid) (i : Nat) (pi : Proc) (e : Err)
+    (hi : (run H true (initSt g progs) sched).procs[i]? = some pi) (hd : pi.pc = .done (.err e)) :
+    bad3 e = false := by
+  obtain ⟨L', inv⟩ := reach_invFF H g L progs hg sched
+  have := (inv.pcs i pi hi).1
+  rw [hd] at this
+  exact this e rfl
+
+/-- repo.json records exactly the installed packages with their sizes -/
+def Accounted (g : Store) : Prop :=
+  ∃ L, g.repo = .valid L ∧ (keys L).Nodup ∧
+    ∀ b sz, (b, sz) ∈ L ↔ ∃ d m, g.final b = some d ∧ d.info = some (.valid m) ∧ m.size = sz
+
+/-- full statement (NOT asserted for the current code): every quiescent state is accounted -/
+def accounting_goal (H : Nat → Nat) (ff : Bool) : Prop :=
+  ∀ (g : Store) (L : List (Bid × Nat)) (progs : List Prog), GoodStoreFF g L → ∀ (sched : List Pid),
+    (∀ (i : Nat) (pi : Proc), (run H ff (initSt g progs) sched).procs[i]? = some pi → pi.pc.isDone = true) →
+    Accounted (run H ff (initSt g progs) sched).g
+
+/-- **accounting_partial** (hypothesis added: flush before unlock, `ff = true`): in every quiescent state of every
+interleaving repo.json is valid and lists exactly the packages at their final paths with the sizes recorded in
+their pkg.json — so the recorded repository size `sumSizes L` is the sum of the installed packages. -/
+theorem accounting_partial (H : Nat → Nat) : accounting_goal H true := by
+  intro g L progs hg sched hdone
+  obtain ⟨L', inv⟩ := reach_invFF H g L progs hg sched
+  have hnot : ∀ (i : Nat) (pi : Proc), (run H true (initSt g progs) sched).procs[i]? = some pi →
+      pi.pc.rmeta = none ∧ pi.pc.inWindow = false := by
+    intro i pi hi
+    have := hdone i pi hi
+    cases hq : pi.pc <;> rw [hq] at this <;> first | exact ⟨rfl, rfl⟩ | cases this
+  refine ⟨L', ?_, inv.nodup, ?_⟩
+  · rcases inv.repoOk with ⟨hv, _⟩ | ⟨_, i, pi, hi, hr, _⟩
+    · exact hv
+    · rw [(hnot i pi hi).1] at hr; cases hr
+  · intro b sz
+    constructor
+    · exact inv.recorded b sz
+    · rintro ⟨d, m, hd, hm, hs⟩
+      obtain ⟨m', hm', hor⟩ := inv.pkgs b d hd
+      rw [hm] at hm'; cases hm'
+      rcases hor with h | ⟨i, pi, hi, hw, _⟩
+      · rw [← hs]; exact h
+      · rw [(hnot i pi hi).2] at hw; cases hw
+
+
+/-- the hypotheses are satisfiable by a store with one installed package; from it two more installs, a use and an
+automatic gc (quota 8) run to a quiescent, accounted state in the patched model -/
+def g1 : Store :=
+  { storeExists := true, repo := .valid [(1, 5)],
+    final := upd (fun _ => none) 1 (some ⟨true, some 1, some (.valid ⟨1, 5, [100]⟩), 0⟩),
+    links := fun _ => none, clock := 1, nInst := fun _ => 0, nGc := fun _ => 0 }
+
+example : GoodStoreFF g1 [(1, 5)] := by
+  refine ⟨rfl, by decide, ?_, ?_⟩
+  · intro b sz h
+    simp only [List.mem_singleton, Prod.mk.injEq] at h
+    obtain ⟨rfl, rfl⟩ := h
+    exact ⟨⟨true, some 1, some (.valid ⟨1, 5, [100]⟩), 0⟩, ⟨1, 5, [100]⟩, rfl, rfl, rfl⟩
+  · intro b d h
+    by_cases e : b = 1
+    · subst e
+      have : d = ⟨true, some 1, some (.valid ⟨1, 5, [100]⟩), 0⟩ := by simpa [g1, upd] using h.symm
+      subst this
+      exact ⟨⟨1, 5, [100]⟩, rfl, by simp⟩
+    · simp [g1, upd, e] at h
+
+example :
+    let s := run id true (initSt g1 [inst 101 2, ⟨.install 102 3 3 3 5 true false, some 8, true⟩, useP 0 1])
+      [0, 1, 2, 0, 1, 2, 0, 1, 2, 0, 1, 2, 0, 1, 2, 0, 1, 2, 1, 1, 1, 1, 1, 1, 1, 1, 1, 1, 1, 1, 0, 0, 0]
+    (s.procs.map (·.pc.isDone)) = [true, true, true] ∧ s.g.repo = .valid [(3, 5), (2, 5)] ∧
+      (s.g.final 1).isNone = true ∧ (s.g.final 2).isSome = true ∧ (s.g.final 3).isSome = true := by
+  decide
+
+/-- gc subtracts exactly what it moved, `__addPackage` adds exactly the size of the new package -/
+theorem accounting_delta (l : List (Bid × Nat)) (b : Bid) (sz : Nat) (h : (keys l).Nodup) :
+    ((b, sz) ∈ l → sumSizes (erasePkg l b) + sz = sumSizes l) ∧
+    (b ∉ keys l → sumSizes (setPkg l b sz) = sumSizes l + sz) :=
+  ⟨sumSizes_erasePkg l b sz h, sumSizes_setPkg_new l b sz⟩
+
+/-- the current code breaks the accounting: the install of package 3 reads repo.json in the flush window of the
+install of package 2, dies after it has published, and package 3 stays unrecorded for ever -/
+theorem witness_accounting_broken :
+    let s := run id false (initSt emptyStore [inst 100 1, inst 101 2, inst 102 3])
+      [0, 0, 0, 0, 0, 0, 0, 0, 2, 2, 2, 2, 1, 1, 1, 1, 1, 2, 2, 1]
+    s.g.repo = .valid [(1, 5), (2, 5)] ∧ (s.g.final 3).isSome = true ∧
+      (s.procs.map (·.pc)) = [.done (.inst true), .done (.inst true), .done (.err .jsonDecode)] := by
+  decide
 
 /-! ### 6. not collected while used — violated by the current code -/
 
